@@ -59,6 +59,7 @@ if o.strip():
     print("/repo not clean:", o); sys.exit(2)
 rc, o = sh("git -C /repo apply %s" % os.path.join(dst, "patch.diff"))
 results = {}
+EVBAK = {p: open('/verif/evidence/%s.json' % p).read() for p in props if os.path.exists('/verif/evidence/%s.json' % p)}
 try:
     for p in props:
         t0 = time.time()
@@ -67,6 +68,8 @@ try:
         results[p] = {"exit": rc, "wall_s": round(time.time() - t0, 1), "lines": [l[:300] for l in lines[:8]]}
 finally:
     sh("git -C /repo checkout -- .")
+    for p, t in EVBAK.items():  # evidence must describe the unchanged tree, not the seeded change
+        open('/verif/evidence/%s.json' % p, 'w').write(t)
 meta["checks_run"] = results
 meta["caught_by"] = [p for p, r in results.items() if r["exit"] == 1]
 json.dump(meta, open(os.path.join(dst, "meta.json"), "w"), indent=1)
